@@ -553,6 +553,10 @@ void SessionManager::accept_loop() {
             continue;
         }
 
+        // The whole inbound handshake is bounded, including the peer id that precedes it: a client that
+        // connects and stays silent must not keep the accept thread (and every other peer) waiting.
+        set_recv_timeout(from_native(client_socket), kHandshakeTimeout);
+
         std::array<std::uint8_t, kPeerIdSize> peer_bytes{};
         if (!recv_all(from_native(client_socket), peer_bytes.data(), peer_bytes.size())) {
             close_socket(from_native(client_socket));
